@@ -593,8 +593,13 @@ def check_C19(ctx):
 
 
 def replay_watch(prop, inv, rp, wd):
-    vlib.run_harness(["watch", "--ops", json.dumps(rp["ops"]), "--out", os.path.join(wd, "rec")])
-    sh = os.path.join(wd, "rec", "shard-00.ndjson")
+    if rp.get("storm"):
+        # concurrent Stop calls: the window is a few instructions wide, so the replay runs several times as many rounds
+        vlib.run_harness(["watch", "--depth", "0", "--storm", str(int(rp["storm"]) * 5), "--out", os.path.join(wd, "rec")])
+        sh = os.path.join(wd, "rec", "shard-01.ndjson")
+    else:
+        vlib.run_harness(["watch", "--ops", json.dumps(rp["ops"]), "--out", os.path.join(wd, "rec")])
+        sh = os.path.join(wd, "rec", "shard-00.ndjson")
     c = Ctx.__new__(Ctx)
     r = Ctx._tlc_with_cfg(c, "TraceWatch", "replay.cfg", WATCH_CFG + "INVARIANT %s\n" % inv, os.path.join(wd, "tlc"), 1, 600, "2g", True, env={"VERIF_TRACE": sh})
     if r.errors:
@@ -611,9 +616,9 @@ def check_C20(ctx):
     mc = ("CONSTANTS Kinds = {\"Added\", \"Modified\", \"Deleted\", \"Bookmark\", \"Error\"}\n MaxLen = %d\n MaxStops = 2\n"
           "SPECIFICATION WSpec\nCHECK_DEADLOCK FALSE\nINVARIANT InOrder\nINVARIANT NoLoss\nINVARIANT StopsSource\nINVARIANT StopOnce\nPROPERTY CleansUp\n")
     ctx.design("Watch", mc % (3 if q else 4), "relay-3-processes")
-    d, shards, meta = ctx.harness(["watch", "--depth", "4" if q else "6"], "schedules", timeout=3400)
+    d, shards, meta = ctx.harness(["watch", "--depth", "4" if q else "6", "--storm", "30000" if q else "400000"], "schedules", timeout=3400)
     ctx.trace("TraceWatch", WATCH_CFG + "INVARIANT Conf\nINVARIANT P_C20\n", shards, "schedules", {"P_C20"},
-              replay=lambda rec: {"kind": "watch", "ops": rec["ops"]})
+              replay=lambda rec: {"kind": "watch", "ops": rec["ops"], "storm": rec["storm"]["rounds"] if "storm" in rec else 0})
     ctx.exhaustive = True
     ctx.extra["domains"] = [meta]
     ctx.add_samples(shards, 2, lambda r: "stop" in r["ops"] and any(o.startswith("send:Error") for o in r["ops"]) and len(r["ops"]) >= 4)
